@@ -185,9 +185,9 @@ def average_baseline_height(line: Union[pdm.PageXMLTextLine, List[pdm.PageXMLTex
         print(f'pagexml.analysis.layout_stats.average_baseline_height - '
               f'negative total_avg {total_avg} for line {line.id}\n')
 
-    # average is total of average heights divided by total width
-    x = sorted([point[0] for point in points])
-    total_width = (x[-1] - x[0])
+    # average is total of average heights divided by the total width of the segments
+    # (for a baseline that doubles back this is more than the width of its bounding box)
+    total_width = sum(abs(points[ci + 1][0] - points[ci][0]) for ci in range(len(points) - 1))
     if total_width != 0:
         return int(total_avg / total_width)
     else:
